@@ -24,9 +24,18 @@ package main
 //
 // Pseudo fields: method calls on unsynchronised helper objects that act as an access of shared
 // state are watched through call patterns (`t.rwCounter.WriteCounter.Zero()` = W of
-// `tBinaryProto.writeCount`; `s.graceCtxWaitGroup.Add/Wait` = W of `session.graceCtxWaitGroup`,
-// because sync.WaitGroup requires Add-from-zero and Wait to be ordered). Promoted methods of an
+// `tBinaryProto.writeCount`). Promoted methods of an
 // embedded field (`s.RemoteAddr()` on `socket`, which embeds net.Conn) are implicit reads of it.
+//
+// Wait groups: the session's grace counters are of the package's own type `graceWaitGroup`
+// (mutex + counter + channel; Add concurrent with Wait is well defined). Its fields are watched like
+// every other struct (`graceWaitGroup.n`, `graceWaitGroup.zero`, lock `graceWaitGroup.mu`), and the
+// session fields holding such a value are ordinary watched fields (`s.graceCtxWaitGroup.Add(1)` is
+// a read of the field: the method works on the value in place). A field of type sync.WaitGroup in
+// a struct watched with `all` is NOT skipped: every `x.f.Add(..)` / `x.f.Wait()` on it is a W site
+// of `T.f` (sync.WaitGroup requires Add-from-zero and Wait to be ordered, so the two must be
+// mutually excluded like writes) — the patterns are derived from the struct declaration on every
+// run (`guardWaitGroupPatterns`), so such a field needs a declared discipline at once.
 //
 // Types are inferred syntactically (receivers, parameters, `:=` from constructors / composite
 // literals / type assertions / fields of known structs). A selector whose base type cannot be
@@ -71,8 +80,8 @@ type guardWatch struct {
 	fields   []string
 	// all: watch EVERY field of the struct (the declared list `fields` is then only a presence
 	// requirement) except the synchronisation objects themselves (sync.Mutex / sync.RWMutex fields are
-	// the locks; sync.WaitGroup fields are watched through call patterns). A field added to the struct
-	// later is watched automatically and must be given a discipline in Conc.guardOf (fails closed).
+	// the locks; sync.WaitGroup fields are watched through derived Add/Wait call patterns). A field added
+	// to the struct later is watched automatically and must be given a discipline in Conc.guardOf (fails closed).
 	all bool
 	// embedded field name -> promoted method names (a call x.M() with M not declared on typ in
 	// the package is an implicit read of the embedded field)
@@ -84,6 +93,8 @@ var netConnMethods = []string{"Read", "Write", "Close", "LocalAddr", "RemoteAddr
 var guardWatches = []guardWatch{
 	{dir: "", typ: "session", all: true, fields: []string{"status", "seq", "didCloseNotify", "sessionAge", "contextAge", "socket",
 		"protoFuncs", "redialForClientLocked", "callCmdMap", "closeNotifyCh"}},
+	// the session's grace counters (Add / Done / Wait from reader, handlers, callers and the closer)
+	{dir: "", typ: "graceWaitGroup", all: true, fields: []string{"n", "zero"}},
 	{dir: "", typ: "callCmd", all: true, fields: []string{"stat", "inputMeta", "result", "inputBodyCodec", "cost"}},
 	{dir: "socket", typ: "socket", all: true, fields: []string{"Conn", "readerWithBuffer", "protocol", "id", "swap", "curState", "fromPool"},
 		promoted: map[string][]string{"Conn": netConnMethods}},
@@ -125,10 +136,16 @@ var guardCallPatterns = []guardCallPattern{
 	{"", "session", "socket.SetReadDeadline", "socket.Conn", "R"},
 	{"", "session", "socket.SetWriteDeadline", "socket.Conn", "R"},
 	{"", "session", "socket.Write", "socket.Conn", "R"},
-	{"", "session", "graceCtxWaitGroup.Add", "graceCtxWaitGroup", "W"},
-	{"", "session", "graceCtxWaitGroup.Wait", "graceCtxWaitGroup", "W"},
-	{"", "session", "graceCallCmdWaitGroup.Add", "graceCallCmdWaitGroup", "W"},
-	{"", "session", "graceCallCmdWaitGroup.Wait", "graceCallCmdWaitGroup", "W"},
+}
+
+// guardWaitGroupPatterns: for a field `f sync.WaitGroup` of watched struct typ, `x.f.Add(..)` and
+// `x.f.Wait()` are W sites of `typ.f` (they must be mutually excluded; `Done` may run concurrently
+// with both and is not a site).
+func guardWaitGroupPatterns(dir, typ, field string) []guardCallPattern {
+	return []guardCallPattern{
+		{dir, typ, field + ".Add", field, "W"},
+		{dir, typ, field + ".Wait", field, "W"},
+	}
 }
 
 // guardPublishMarker: after the statement `x.<method>()` (x of type typ) the rest of the function
@@ -145,7 +162,6 @@ var guardPublishMarkers = []guardPublishMarker{
 // pseudo fields that must have at least one site (fail closed when the call shape disappears)
 var guardPseudoRequired = []string{
 	"tBinaryProto.writeCount", "tBinaryProto.readCount", "tStructProto.writeCount", "tStructProto.readCount",
-	"session.graceCtxWaitGroup", "session.graceCallCmdWaitGroup",
 }
 
 // ---------------------------------------------------------------------------------------------
@@ -244,6 +260,7 @@ func genGuards(r *Repo) (sites []gSite, unresolved []gUnres, missing []string) {
 	// expand `all` watches to the struct's current field list (minus its synchronisation objects)
 	watches := make([]guardWatch, len(guardWatches))
 	copy(watches, guardWatches)
+	patterns := append([]guardCallPattern{}, guardCallPatterns...)
 	for i, w := range watches {
 		if !w.all {
 			continue
@@ -263,6 +280,11 @@ func genGuards(r *Repo) (sites []gSite, unresolved []gUnres, missing []string) {
 		}
 		for _, fl := range st.Fields.List {
 			if isSyncObjectType(fl.Type) {
+				if baseTypeName(fl.Type) == "sync.WaitGroup" {
+					for _, n := range fl.Names {
+						patterns = append(patterns, guardWaitGroupPatterns(w.dir, w.typ, n.Name)...)
+					}
+				}
 				continue
 			}
 			for _, n := range StructFieldNames(&ast.StructType{Fields: &ast.FieldList{List: []*ast.Field{fl}}}) {
@@ -280,7 +302,7 @@ func genGuards(r *Repo) (sites []gSite, unresolved []gUnres, missing []string) {
 			missing = append(missing, fmt.Sprintf("package dir '%s' unreadable or empty: %v", dir, p.Err))
 			continue
 		}
-		px := newGuardPkg(p, dir, watches)
+		px := newGuardPkg(p, dir, watches, patterns)
 		for _, w := range watches {
 			if w.dir != dir {
 				continue
@@ -434,7 +456,7 @@ func guardUnderlyingStruct(p *Pkg, name string) *ast.StructType {
 }
 
 // isSyncObjectType: sync.Mutex / sync.RWMutex (the locks themselves) and sync.WaitGroup (watched through
-// call patterns, its own methods synchronise internally).
+// the derived Add/Wait call patterns of guardWaitGroupPatterns, its own methods synchronise internally).
 func isSyncObjectType(e ast.Expr) bool {
 	switch baseTypeName(e) {
 	case "sync.Mutex", "sync.RWMutex", "sync.WaitGroup":
@@ -444,7 +466,7 @@ func isSyncObjectType(e ast.Expr) bool {
 	return false
 }
 
-func newGuardPkg(p *Pkg, dir string, watches []guardWatch) *guardPkg {
+func newGuardPkg(p *Pkg, dir string, watches []guardWatch, patterns []guardCallPattern) *guardPkg {
 	g := &guardPkg{p: p, dir: dir, fieldType: map[string]map[string]string{}, structs: map[string]bool{},
 		funcRes: map[string][]string{}, methods: map[string]map[string]bool{}, watched: map[string]map[string]bool{},
 		watchedAny: map[string]bool{}, promoted: map[string]map[string]string{}, defined: map[string]string{}}
@@ -529,7 +551,7 @@ func newGuardPkg(p *Pkg, dir string, watches []guardWatch) *guardPkg {
 			}
 		}
 	}
-	for _, c := range guardCallPatterns {
+	for _, c := range patterns {
 		if c.dir == dir {
 			g.patterns = append(g.patterns, c)
 		}
